@@ -3,8 +3,8 @@ import random
 from vlib import core, corr
 
 AREA = "C06"
-MODULES = ["TinsModel.Props.C06"]
-AUDIT = "Audit/C06.lean"
+MODULES = ["TinsModel.Props.C06", "TinsModel.Props.Limits.C06"]   # + the constants / limits tied to the source (translator/gen_limits.py)
+AUDIT = ["Audit/C06.lean", "Audit/LimitsC06.lean"]
 LEVEL = "proof"
 MANIFEST = dict(
     text="Lean 4 theorems over code-shaped executable models of DataTracker::process_payload/advance_sequence, "
@@ -198,6 +198,8 @@ def build_all():
 
 
 def run(chk):
+    from translator import gen_limits
+    gen_limits.main([])          # Gen/Limits.lean: constants and limits read from the current source
     problems = chk.prove(MODULES, AUDIT, want_leanchecker=(chk.tier == "thorough"))
     exes, err = build_all()
     if exes is None:
